@@ -1252,6 +1252,7 @@ func exploreAll(l *loaded, entries []Entry, opts Options, workers int, cross int
 			ss := &res.Solver
 			rs := r.Solver
 			ss.Queries += rs.Queries
+			ss.CacheHits += rs.CacheHits
 			ss.Sat += rs.Sat
 			ss.Unsat += rs.Unsat
 			ss.Unknown += rs.Unknown
@@ -1423,6 +1424,7 @@ func (m *Machine) accSolver(b SolverStats) {
 	a := m.solver.Stats
 	s := &m.solverAcc
 	s.Queries += a.Queries - b.Queries
+	s.CacheHits += a.CacheHits - b.CacheHits
 	s.Sat += a.Sat - b.Sat
 	s.Unsat += a.Unsat - b.Unsat
 	s.Unknown += a.Unknown - b.Unknown
